@@ -1,11 +1,13 @@
 """Property id -> run / replay functions and the MANIFEST metadata of each claimed check."""
+import os
+
 from . import sem_props
 from .main import COMMON_ASSUMPTIONS
 
 PROPS = {}
 META = {}
 NOT_APPLICABLE = {}
-HOOK_COMMITS = []
+HOOK_COMMITS = ["eb36245"]
 
 NOTE_SEM = ("Trusted base: TLC's evaluation of specs/Sem.tla (reference semantics over exact complex "
             "dyadic rationals / Taylor jets), the JSON emission, the adapter that builds cirkit "
@@ -46,10 +48,39 @@ def _fold_model_hook(tier):
     return run_hook
 
 
+def _repo_tests_traced(prefix):
+    """thorough tier: the repository's own compilation tests as a source of mechanism traces"""
+    import subprocess  # pylint: disable=import-outside-toplevel
+    import sys  # pylint: disable=import-outside-toplevel
+    repo = os.environ.get("VERIF_REPO", "/repo")
+    env = dict(os.environ, VERIF_MECH_TRACE=prefix, CIRKIT_VERIF="1")
+    cmd = [sys.executable, "-m", "pytest", "-q", "-p", "no:cacheprovider", "-p", "harness.pytest_mech",
+           "-n", "8", "tests/backend/torch/test_compile_circuit.py",
+           "tests/backend/torch/test_queries", "tests/backend/torch/test_serialization.py",
+           "tests/templates", "tests/data_modalities"]
+    r = subprocess.run(cmd, cwd=repo, env=env, capture_output=True, text=True, timeout=7200, check=False)
+    return r.returncode, (r.stdout or "")[-300:]
+
+
 def _sem_run(pid, tier, seed, rule, assumptions):
     hook = None
     if pid == "C02":
-        hook = _fold_model_hook(tier)
+        from . import mech_trace, tlcrun  # pylint: disable=import-outside-toplevel
+        os.makedirs(tlcrun.WORK, exist_ok=True)
+        prefix = os.path.join(tlcrun.WORK, f"mechtrace_{tier}_{os.getpid()}")
+        os.environ["VERIF_MECH_TRACE"] = prefix
+        hooked = mech_trace.install()            # forked replay workers inherit the tracer
+        model_hook = _fold_model_hook(tier)
+
+        def hook(rep):                            # pylint: disable=function-redefined
+            model_hook(rep)
+            if not hooked:
+                rep.machinery_errors.append("the CIRKIT_VERIF hook of cirkit.backend.torch.compiler is missing")
+                return
+            if tier == "thorough":
+                rc, tail = _repo_tests_traced(prefix)
+                rep.extra["repo_tests_traced"] = {"rc": rc, "tail": tail}
+            mech_trace.validate(rep, prefix, f"{pid}_{tier}", limit=1500 if tier == "quick" else None)
     if pid in GAUSS_REL:
         from . import gauss_props  # pylint: disable=import-outside-toplevel
         hook = gauss_props.hook(pid, tier, seed, GAUSS_REL[pid])
@@ -141,8 +172,11 @@ _sem("C02",
      "the outputs exactly as the reference semantics says.",
      "Exhaustive TLC enumeration; the four flag combinations are each compared with the same "
      "Tier-R table (hence pairwise); addressability is decided semantically by updates through "
-     "the registry slices.",
-     _TECH_RUN)
+     "the registry slices. Mechanism models FoldSys.tla / OptSys.tla are model-checked (every "
+     "DAG with <= 4-5 nodes) and bound to the code by trace validation of every observed folding "
+     "and layer-fusion pass (TraceFold.tla / TraceOpt.tla, CIRKIT_VERIF hook).",
+     _TECH_RUN + "; TLC model checking of the folding / fusion mechanism models (FoldSys.tla, "
+     "OptSys.tla) and trace validation of observed passes against them (TraceFold.tla, TraceOpt.tla)")
 _sem("C10",
      "TLC enumerates operator pipelines (1-3 operators) and every history of <= 4-6 steps over "
      "{update one tensor (copy or SGD step), reset_parameters, save, load_state_dict, eval}; "
